@@ -32,10 +32,10 @@ Consume == l' = l + 1
 
 TInit == /\ l = 2 /\ reads = <<>>
          /\ Trace[1].ev = "reset"
-         /\ LinInit(Trace[1].st, Trace[1].weak)
+         /\ LinInit(FromDump(Trace[1].st), Trace[1].weak)
 
 TReset == /\ IsEvent("reset") /\ Consume /\ reads' = <<>>
-          /\ store' = E.st /\ open' = <<>> /\ zomb' = <<>> /\ base' = E.st /\ tail' = <<>>
+          /\ store' = FromDump(E.st) /\ open' = <<>> /\ zomb' = <<>> /\ base' = FromDump(E.st) /\ tail' = <<>>
           /\ weak' = E.weak
 
 TInv  == IsEvent("inv") /\ Invoke(E.id, E.op, l) /\ Consume /\ UNCHANGED reads
@@ -49,10 +49,10 @@ TSettle == IsEvent("settle") /\ Settle /\ Consume /\ reads' = <<>>
 (* just-in-time silent steps, per location: operations on different locations commute, so   *)
 (* before an answer only operations on the answered operation's location are placed, before  *)
 (* a read only operations on a location whose value still differs                            *)
-Locs == {"s1", "s2", "h1f1", "h1f2", "l1"}
+Locs == {"s1", "s2", "h1f1", "h1f2", "l1", "p1"}
 NeedLoc(k) == /\ l <= Len(Trace)
               /\ \/ E.ev = "ok" /\ E.id \in DOMAIN open /\ ~open[E.id].done /\ open[E.id].op.k = k
-                 \/ E.ev = "read" /\ store[k] # E.st[k]
+                 \/ E.ev = "read" /\ Dump(store)[k] # E.st[k]
 TLin  == /\ \E id \in DOMAIN open : NeedLoc(open[id].op.k) /\ Linearize(id)
          /\ UNCHANGED <<l, reads>>
 TLinZ == /\ \E id \in DOMAIN zomb : NeedLoc(zomb[id].k) /\ LinearizeZ(id)
